@@ -30,7 +30,7 @@ class H:
         self.timeout_ms, self.cap, self.validate = timeout_ms, cap, validate
 
 
-def harness(name, quick=({},), thorough=None, timeout_ms=10000, cap=64, validate=True):
+def harness(name, quick=({},), thorough=None, timeout_ms=30000, cap=64, validate=True):
     """Register fn(ctx, **cfg) under `name` ("Cxx.something"); quick/thorough are lists of cfg dicts."""
 
     def deco(fn):
